@@ -30,7 +30,12 @@ class AwList(list):
         return list(self)
         yield
 
+RB_CAP = [4]
+rb_calls = [0]
+
 def _random_bits(sftype, n, signed=False):
+    rb_calls[0] += 1
+    if rb_calls[0] > RB_CAP[0]: raise symx1.PathAbort()     # bounded restarts
     field = sftype.field if issubclass(sftype, mpc.SecureObject) else sftype
     f = getattr(sftype, 'frac_length', 0) if issubclass(sftype, mpc.SecureObject) else 0
     out = []
